@@ -16,6 +16,7 @@ type genFile struct {
 
 var files = []genFile{
 	{"Numeric.lean", genNumeric},
+	{"NumericSimp.lean", genNumericSimp},
 }
 
 func main() {
